@@ -229,6 +229,33 @@ Theorem C05_build_after_free : forall szs szd ifs, NoDup (map fst ifs) ->
 Proof. exact P_build_over_empty. Qed.
 Print Assumptions C05_build_after_free.
 
+(* ------------------------------------------------------------------ members outside the communication path
+   Interface::operator== (after fixes/C05-2) decides equality of the interface maps; the tree's version (F-C05-2: each list is
+   compared with itself) is refuted; Selection holds exactly the local indices of the entries whose attribute is in the set;
+   the flag-set combinators are the boolean algebra their names say. *)
+Theorem C05_interface_equality : forall m o, c05_iface_eqb m o = true <-> m = o.
+Proof. exact P_iface_eqb. Qed.
+Print Assumptions C05_interface_equality.
+
+Theorem C05_interface_equality_tree_refuted :
+  c05_iface_eqb_tree [(1, ([1], [2]))] [(1, ([2], [1]))] = true /\ [(1, ([1], [2]))] <> [(1, ([2], [1]))].
+Proof. exact P_iface_eqb_tree_refuted. Qed.
+Print Assumptions C05_interface_equality_tree_refuted.
+
+Theorem C05_selection_spec : forall s is l,
+  In l (c05_selection s is) <-> exists e, In e is /\ c05_ie_l e = l /\ c05_contains s (c05_ie_a e) = true.
+Proof. exact P_selection_spec. Qed.
+Print Assumptions C05_selection_spec.
+
+Theorem C05_flagset_algebra : forall s t x i a b,
+  c05_contains C05_Empty x = false /\ c05_contains C05_All x = true /\
+  (c05_contains (C05_Item i) x = true <-> x = i) /\
+  (c05_contains (C05_Range a b) x = true <-> a <= x <= b) /\
+  c05_contains (C05_Negate s) x = negb (c05_contains s x) /\
+  c05_contains (C05_Combine s t) x = c05_contains s x || c05_contains t x.
+Proof. exact P_flagset_algebra. Qed.
+Print Assumptions C05_flagset_algebra.
+
 (* ------------------------------------------------------------------ non-vacuity *)
 Definition ex_rm : c05_rmap :=
   [(1, ([ {| c05_re_attr := 1; c05_re_g := 1; c05_re_l := 1; c05_re_a := 0 |}; {| c05_re_attr := 0; c05_re_g := 2; c05_re_l := 2; c05_re_a := 1 |} ],
